@@ -438,6 +438,7 @@ Definition versions_step (md5 : list N -> list N) (c : config) (hs : hstate) (o 
               ({| hs_model := s1; hs_tbl := t'; hs_up := hs_up hs; hs_utbl := hs_utbl hs; hs_fs := hs_fs hs |},
                exp_ok ob ++ ms ++
                expect (same_set (vl_prefixes r) (ob_names ob)) "S:version-common-prefixes" ++
+               expect (negb (ob_truncated ob) || negb (beq (ob_next ob) [])) "S:truncated-without-a-key-marker-to-go-on-from" ++
                expect (Bool.eqb (vl_truncated r) (ob_truncated ob)) "M:is-truncated" ++
                (if vl_truncated r then
                   expect (beq (ob_next ob) (vl_next_key r)) "M:next-key-marker" ++
